@@ -12,6 +12,8 @@
 #undef protected
 #include <algorithm>
 #include <cmath>
+#include <cstring>
+#include <sstream>
 using namespace datasketches;
 using vh::I; using vh::Line; using vh::Out;
 typedef std::vector<double> Pt;
@@ -44,7 +46,14 @@ struct Reg {
   virtual double estimate(const Pt& q) = 0;
   virtual void iterate(Out& o) = 0;
   virtual std::unique_ptr<Reg> roundtrip() = 0;
+  virtual int kind() const = 0;
+  virtual std::string image(int path, unsigned header) = 0;
 };
+
+template<typename K> struct kind_of;
+template<> struct kind_of<kernel0> { static const int value = 0; };
+template<> struct kind_of<kernel1> { static const int value = 1; };
+template<> struct kind_of<gaussian_kernel<double>> { static const int value = 2; };
 
 template<typename K> struct RegT : Reg {
   typedef density_sketch<double, K> sk_t;
@@ -77,7 +86,56 @@ template<typename K> struct RegT : Reg {
     auto bytes = sk.serialize();
     return std::unique_ptr<Reg>(new RegT<K>(sk_t::deserialize(bytes.data(), bytes.size())));
   }
+  int kind() const override { return kind_of<K>::value; }
+  // path 0: serialize(header) to a byte vector; path 1: serialize(ostream)
+  std::string image(int path, unsigned header) override {
+    if (path == 0) {
+      auto bytes = sk.serialize(header);
+      return std::string(reinterpret_cast<const char*>(bytes.data()), bytes.size());
+    }
+    std::stringstream ss(std::ios::in | std::ios::out | std::ios::binary);
+    sk.serialize(ss);
+    return ss.str();
+  }
 };
+
+// deserialize an image (path 0: from a heap buffer of exactly its size; path 1: from a stream that ends with it), print the
+// content through the public API: R = 1, bytes consumed (stream path, else 0), k, dim, num_retained, n, is_estimation_mode,
+// then the iteration in order (weight, coordinate bit patterns).  Returns the register, or null when some coordinate is not an
+// integer-valued double (the model keeps no register for such a sketch either).
+template<typename K> static std::unique_ptr<Reg> decode(const std::string& img, int path, Out& o) {
+  typedef density_sketch<double, K> sk_t;
+  std::unique_ptr<sk_t> sk;
+  I used = 0;
+  if (path == 0) {
+    std::unique_ptr<char[]> buf(new char[img.size()]);
+    memcpy(buf.get(), img.data(), img.size());
+    sk.reset(new sk_t(sk_t::deserialize(buf.get(), img.size())));
+  } else {
+    std::stringstream ss(img, std::ios::in | std::ios::binary);
+    sk.reset(new sk_t(sk_t::deserialize(ss)));
+    ss.clear();
+    used = (I)(long)ss.tellg();
+  }
+  o.R(1); o.R(used); o.R((I)sk->get_k()); o.R((I)sk->get_dim()); o.R((I)sk->get_num_retained()); o.R((I)sk->get_n());
+  o.R(sk->is_estimation_mode() ? 1 : 0);
+  bool integral = true;
+  for (auto it = sk->begin(); it != sk->end(); ++it) {
+    const auto pr = *it;
+    o.R((I)pr.second);
+    for (double c : pr.first) {
+      o.R(vh::dbits(c));
+      if (!(std::fabs(c) < 9007199254740992.0 && c == std::trunc(c) && !(c == 0 && std::signbit(c)))) integral = false;
+    }
+  }
+  if (!integral) return std::unique_ptr<Reg>();
+  return std::unique_ptr<Reg>(new RegT<K>(std::move(*sk)));
+}
+static std::unique_ptr<Reg> decode_kind(int kind, const std::string& img, int path, Out& o) {
+  if (kind == 0) return decode<kernel0>(img, path, o);
+  if (kind == 1) return decode<kernel1>(img, path, o);
+  return decode<gaussian_kernel<double>>(img, path, o);
+}
 
 static std::map<long, std::unique_ptr<Reg>> regs;
 
@@ -120,6 +178,23 @@ static void handler(const Line& t, Out& o) {
     std::unique_ptr<Reg> p = get(t.at(1)).roundtrip();
     regs[(long)t.at(2)] = std::move(p);
     o.R(1); break; }
+  case 8: { // serialize r path header  (bytes in R)
+    std::string img = get(t.at(1)).image((int)t.at(2), (unsigned)t.at(3));
+    o.R(1);
+    for (unsigned char c : img) o.R((I)c);
+    break; }
+  case 10: { // deserialize r2 kind path bytes*
+    std::unique_ptr<Reg> p = decode_kind((int)t.at(2), vh::bytes_of(t, 4), (int)t.at(3), o);
+    if (p) regs[(long)t.at(1)] = std::move(p); else regs.erase((long)t.at(1));
+    break; }
+  case 11: { // r r2 path cut extra*: deserialize (the first cut bytes of, when cut >= 0) serialize(r), followed by extra
+    Reg& a = get(t.at(1));
+    std::string img = a.image(1, 0);
+    if (t.at(4) >= 0 && (size_t)t.at(4) < img.size()) img.resize((size_t)t.at(4));
+    img += vh::bytes_of(t, 5);
+    std::unique_ptr<Reg> p = decode_kind(a.kind(), img, (int)t.at(3), o);
+    if (p) regs[(long)t.at(2)] = std::move(p); else regs.erase((long)t.at(2));
+    break; }
   default: o.R(-2);
   }
 }
